@@ -88,7 +88,7 @@ func famLegacy(n int, cmds ...string) SeqModel {
 func init() {
 	registry["C06"] = func() Check {
 		return &SeqCheck{Prop: "C06",
-			Ideal: famState(5), IdealProps: []string{"P_C06", "P_C10"}, IdealInvs: []string{"CodeReadyIsSpecReady"},
+			Ideal: famState(5), IdealProps: []string{"P_C06", "P_C10"}, IdealInvs: []string{"CodeReadyIsSpecReady"}, Probes: probeBlankAgents,
 			Proc: &ProcCheck{Prop: "C06", Scenarios: "StateScenarios", IdealInvs: []string{"Serializable"}, Only: []string{"C06_serial", "C06_final"}},
 			GenQuick: famState(3), GenThorough: famState(5), SampleQuick: 150,
 			Sim: with(famState(12), func(m *SeqModel) { m.MaxTasks = 3 }), SimNumQuick: 60, SimNumThorough: 2000}
@@ -103,7 +103,8 @@ func init() {
 	}
 	registry["C08"] = func() Check {
 		return &SeqCheck{Prop: "C08",
-			Ideal: famReady(3, 2, 5), IdealDeep: famReady(3, 2, 7), IdealProps: []string{"P_C08"}, IdealInvs: []string{"CodeReadyIsSpecReady"},
+			Ideal: famReady(3, 2, 5), IdealDeep: famReady(3, 2, 7), IdealProps: []string{"P_C08"}, IdealInvs: []string{"CodeReadyIsSpecReady"}, Probes: probeClaimOrder,
+			Proc: &ProcCheck{Prop: "C08", Scenarios: "ClaimScenarios", IdealInvs: []string{"Serializable"}, Only: []string{"C08_serial"}},
 			GenQuick: famReady(2, 2, 4), GenThorough: famReady(3, 2, 6), SampleQuick: 120,
 			CraftQuick: famCraft(1200, "claim", "list_ready"), CraftThorough: famCraft(40000, "claim", "list_ready"),
 			Sim: famReady(4, 2, 14), SimNumQuick: 60, SimNumThorough: 2000}
@@ -118,7 +119,7 @@ func init() {
 	}
 	registry["C10"] = func() Check {
 		return &SeqCheck{Prop: "C10",
-			Ideal: famFull(3), IdealDeep: famFull(4), IdealProps: []string{"P_C10"}, Probes: probeHalf,
+			Ideal: famFull(3), IdealDeep: famFull(4), IdealProps: []string{"P_C10"}, Probes: append(append([]emitted{}, probeHalf...), probeD10...),
 			Proc: &ProcCheck{Prop: "C10", Scenarios: "FailScenarios", IdealInvs: []string{"Serializable"}, Only: []string{"C10_serial"}},
 			GenQuick: famFull(2), GenThorough: famFull(4), SampleQuick: 60,
 			Sim: with(famFull(10), func(m *SeqModel) { m.MaxTasks = 3 }), SimNumQuick: 80, SimNumThorough: 3000}
@@ -159,7 +160,7 @@ func init() {
 	}
 	registry["C05"] = func() Check {
 		return &SeqCheck{Prop: "C05",
-			Ideal: famCompact(5), IdealDeep: famCompact(7), IdealProps: []string{"P_C05"}, Probes: probeCompact,
+			Ideal: famCompact(5), IdealDeep: famCompact(7), IdealProps: []string{"P_C05"}, Probes: append(append([]emitted{}, probeCompact...), probeClaimOrder...),
 			GenQuick: famCompact(4), GenThorough: famCompact(6), SampleQuick: 150,
 			// (random crafted stores are NOT used here: C05 quantifies over histories ergo can
 			// produce plus legacy logs; a hand-made "canceled but claimed" item does lose its
